@@ -2690,12 +2690,17 @@ save_ed_buffer (object_t * who)
     {
       if (stmp->type == T_STRING)
         {
+          /* the write callback is another apply: it releases the master's return value */
+          char save_name[MAXFNAME];
+
           fname = stmp->u.string;
           if (*fname == '/')
             fname++;
+          strncpy (save_name, fname, MAXFNAME - 1);
+          save_name[MAXFNAME - 1] = 0;
           /* the master chooses the name; still never leave the mudlib */
-          if (legal_path (fname))
-            dowrite (1, P_LASTLN, fname, 0);
+          if (legal_path (save_name))
+            dowrite (1, P_LASTLN, save_name, 0);
         }
     }
   free_ed_buffer (who);
